@@ -130,3 +130,25 @@ Definition from (i : nat) (l : list (nat * bytes)) : list bytes :=
   map snd (filter (fun p => Nat.eqb (fst p) i) l).
 
 Definition quiet_pc (p : pc) : bool := match p with Forwarding _ _ => false | _ => true end.
+
+(* ---------- the receiving worker over time: what is stored changes, ids arrive, and anybody may ask ---------- *)
+(* Accept u / Remove u: some worker commits / removes the event with id u (all workers share the one store);
+   Probe u: somebody asks this worker for u (GET /e/<id>, a REQ by id ...) - answered from the store, nothing kept;
+   Announce u: the id arrives from the hub: looked up, fanned out if it is stored at that moment. *)
+Inductive wev := Accept (u : bytes) | Remove (u : bytes) | Probe (u : bytes) | Announce (u : bytes).
+Definition bytes_dec : forall a b : bytes, {a = b} + {a <> b} := list_eq_dec N.eq_dec.
+Definition stored (u : bytes) (st : list bytes) : bool := if in_dec bytes_dec u st then true else false.
+Definition store_step (st : list bytes) (e : wev) : list bytes :=
+  match e with Accept u => u :: st | Remove u => remove bytes_dec u st | Probe _ | Announce _ => st end.
+Fixpoint world (st : list bytes) (evs : list wev) : list action :=
+  match evs with
+  | [] => []
+  | e :: r =>
+      (match e with
+       | Probe u => [Lookup u]
+       | Announce u => client_actions (fun x => stored x st) [u]
+       | _ => []
+       end) ++ world (store_step st e) r
+  end.
+Definition fanouts (l : list action) : list bytes := flat_map (fun a => match a with FanOut u => [u] | Lookup _ => [] end) l.
+Definition is_probe (e : wev) : bool := match e with Probe _ => true | _ => false end.
